@@ -167,6 +167,24 @@ Theorem C14_construction_paths_ok : forall frontier children c c',
 Proof. exact into_ssa_paths_ok. Qed.
 Print Assumptions C14_construction_paths_ok.
 
+(* hence, in the output of the construction, every read is dominated by its definition: on EVERY
+   path from the entry that ends in the block of the read, the version the read names has been
+   assigned by a statement of that path (or is the parameter's version, or the fresh base version
+   of an element-wise update of a never-assigned array) *)
+Theorem C14_construction_read_defined_on_every_path : forall frontier children c c' pi bi b s v n,
+  ssa_dyn_pre_ok c = true ->
+  children_treeb children (length (c_blocks c)) = true ->
+  creach c -> children_sound c children -> frontier_exact c frontier ->
+  into_ssa frontier children c = SOk c' ->
+  path_from_entry c' (pi ++ [bi]) ->
+  nth_error (c_blocks c') bi = Some b -> In s (b_stmts b) -> is_phi_stmt s = false ->
+  In v (stmt_reads s) -> vn_version v = Some n ->
+  update_base s = Some v \/
+  vget (params_map (c_params c')) (key_of v) = Some n \/
+  defined_on c' (pi ++ [bi]) (key_of v) n.
+Proof. exact into_ssa_read_defined_on_path. Qed.
+Print Assumptions C14_construction_read_defined_on_every_path.
+
 (* non-vacuity: a two-block loop graph  x.1 = phi(x.0, x.2); x.2 = x.1 + 1  is
    accepted, and the same graph reading the stale x.0 in the loop is rejected *)
 Definition k0 : know := {| kval := None; kdeg := None |}.
